@@ -37,12 +37,16 @@ pub fn make_module() -> KMap {
 
         match map_instance_and_args(ctx, expected_error)? {
             (KValue::Map(m), [KValue::Map(other)]) => {
-                m.data_mut().extend(
-                    other
-                        .data()
-                        .iter()
-                        .map(|(key, value)| (key.clone(), value.clone())),
-                );
+                // Extending a map with itself is a no-op (and can't be borrowed mutably while
+                // it's being read).
+                if !m.is_same_instance(other) {
+                    m.data_mut().extend(
+                        other
+                            .data()
+                            .iter()
+                            .map(|(key, value)| (key.clone(), value.clone())),
+                    );
+                }
                 Ok(KValue::Map(m.clone()))
             }
             (KValue::Map(m), [iterable]) if iterable.is_iterable() => {
@@ -50,27 +54,28 @@ pub fn make_module() -> KMap {
                 let iterable = iterable.clone();
                 let iterator = ctx.vm.make_iterator(iterable)?;
 
-                {
-                    let mut map_data = m.data_mut();
-                    let (size_hint, _) = iterator.size_hint();
-                    map_data.reserve(size_hint);
+                // The iterator could be reading from (or calling functions that modify) the map
+                // that's being extended, so it gets consumed before the map is mutably borrowed.
+                let (size_hint, _) = iterator.size_hint();
+                let mut new_entries = Vec::with_capacity(size_hint);
 
-                    for output in iterator {
-                        use KIteratorOutput as Output;
-                        let (key, value) = match output {
-                            Output::ValuePair(key, value) => (key, value),
-                            Output::Value(KValue::Tuple(t)) if t.len() == 2 => {
-                                let key = t[0].clone();
-                                let value = t[1].clone();
-                                (key, value)
-                            }
-                            Output::Value(value) => (value, KValue::Null),
-                            Output::Error(error) => return Err(error),
-                        };
+                for output in iterator {
+                    use KIteratorOutput as Output;
+                    let (key, value) = match output {
+                        Output::ValuePair(key, value) => (key, value),
+                        Output::Value(KValue::Tuple(t)) if t.len() == 2 => {
+                            let key = t[0].clone();
+                            let value = t[1].clone();
+                            (key, value)
+                        }
+                        Output::Value(value) => (value, KValue::Null),
+                        Output::Error(error) => return Err(error),
+                    };
 
-                        map_data.insert(ValueKey::try_from(key.clone())?, value);
-                    }
+                    new_entries.push((ValueKey::try_from(key.clone())?, value));
                 }
+
+                m.data_mut().extend(new_entries);
 
                 Ok(KValue::Map(m))
             }
